@@ -4,9 +4,11 @@ from runner import spec, WIRE_PKG, MAIN_PKG
 MC = 'model_checking'
 
 
-def solve(skeleton, K=2, missing=1, direct=0, **kw):
-    return spec('H_solve', params=dict(skeleton=skeleton, K=K, missing=missing, direct=direct),
-                label='H_solve[%d,K=%d,M=%d,direct=%d]' % (skeleton, K, missing, direct), **kw)
+def solve(skeleton, K=2, missing=1, direct=0, named=1, **kw):
+    """direct: 0 all items in one imported set; 1 each item direct or in the imported set; 2 direct or one of two imported sets.
+    named=0: the imported sets are inline wire.NewSet(...) arguments (no variable name)."""
+    return spec('H_solve', params=dict(skeleton=skeleton, K=K, missing=missing, direct=direct, named=named),
+                label='H_solve[%d,K=%d,M=%d,direct=%d,named=%d]' % (skeleton, K, missing, direct, named), **kw)
 
 
 SOLVE_FUNCS = 'solve, verifyArgsUsed, buildProviderMap, ProviderSet.For, ProvidedType.*, typeutil.Map (real, constant hasher)'
@@ -295,7 +297,8 @@ INTERP_TYPES = ['go/types', 'golang.org/x/tools/go/types/typeutil', 'errors', 'g
 
 
 def tspec(entry, **params):
-    return spec(entry, params=params, label='%s%s' % (entry, params or ''), interp=INTERP_TYPES, init=['go/types'])
+    # H_recog_expr replaces objectCache.varDecl by a stub, which a native replay cannot do
+    return spec(entry, params=params, label='%s%s' % (entry, params or ''), interp=INTERP_TYPES, init=['go/types'], replayable=(entry != 'H_recog_expr'))
 
 
 PROPS['C20'] = dict(
@@ -389,3 +392,20 @@ PROPS['C16']['quick'] = PROPS['C16']['quick'] + [sideb(['kinds', 'naming', 'valu
 PROPS['C16']['thorough'] = PROPS['C16']['thorough'] + [sideb(['chains3', 'kinds', 'naming', 'values', 'frontend', 'packages', 'grouping'], determinism=True)]
 PROPS['C16']['bounds_text'] += '; supplement (enumerated runs, not solver-decided): for the side-B corpus, a repeated run, and a run in a copy of the module at another location started from a package directory with per-package relative patterns, must give byte-identical files free of absolute paths'
 PROPS['C16']['outside'] = 'NOT CLAIMED: GOPATH mode and vendor-directory resolution (only module mode exists in this sandbox offline), co-processing with arbitrary other packages beyond the corpus runs'
+
+# skeletons added after the seeded changes S08 (inline sets) and S10 (binding to a field-provided type in the same set)
+PROPS['C08']['quick'] = PROPS['C08']['quick'] + [solve(1367, direct=2, named=0), solve(1567, direct=2, named=0, K=1)]
+PROPS['C08']['thorough'] = PROPS['C08']['thorough'] + [solve(11367, direct=2, named=0), solve(13567, direct=2, named=0, K=1), solve(11367, direct=2, named=1, K=1)]
+PROPS['C10']['quick'] = PROPS['C10']['quick'] + [solve(15367, direct=1, missing=0), solve(15467, direct=2, missing=0, K=1, named=0)]
+PROPS['C10']['thorough'] = PROPS['C10']['thorough'] + [solve(115367, direct=1, missing=0), solve(15467, direct=2, missing=0, named=0), solve(152367, direct=1, missing=0, K=1)]
+PROPS['C11']['quick'] = PROPS['C11']['quick'] + [solve(15367, direct=1)]
+PROPS['C11']['thorough'] = PROPS['C11']['thorough'] + [solve(15467, direct=2), solve(155367, direct=1, K=1)]
+
+PROPS['C06']['quick'] = PROPS['C06']['quick'] + [tspec('H_recog_expr'), sideb(['frontend'])]
+PROPS['C06']['thorough'] = PROPS['C06']['thorough'] + [tspec('H_recog_expr'), sideb(['frontend'])]
+PROPS['C10']['quick'] = PROPS['C10']['quick'] + [tspec('H_recog_expr')]
+
+PROPS['C09']['quick'] = PROPS['C09']['quick'] + [tspec('H_sig_real', real_typestring=1)]
+PROPS['C09']['thorough'] = PROPS['C09']['thorough'] + [tspec('H_sig_real', real_typestring=1)]
+PROPS['C09']['covers']['H_sig_real'] = ['dup', 'nodup']
+PROPS['C09']['bounds_text'] += '; H_sig_real: 2..3 parameters / fields drawn from 14 real go/types types including identical-but-differently-spelled pairs (byte/uint8, rune/int32, []byte/[]uint8, func types differing in parameter names, any/interface{}) and similar-but-distinct ones, oracle types.Identical (go/types run from its own SSA)'
